@@ -97,6 +97,7 @@ class Scn:
     ops: list = field(default_factory=list)       # ('construct',) ('send', ev) ('activate',) ('reconstruct',)
     strict: bool = False
     state_field: str = "state"
+    extra_events: dict = field(default_factory=dict)   # event id >= 100 -> arbitrary name (never declared)
 
     # -- derived
     def is_async(self):
@@ -129,11 +130,9 @@ def flatten(scn: Scn, live=None):
 
     Returns (tlists, slists): tlists[i][group] = [(cbid, only)], slists[i][group] = [cbid].
     `live`: set of provider names currently attached (default: constructor-time providers)."""
-    live = set(scn.providers()) if live is None else set(live)
-    prov_rank = {p: i for i, p in enumerate(["machine", "model"] + sorted(p for p in live if p.startswith("L")))}
-    # listener order = attachment order; callers pass ordered list when it matters
-    if isinstance(live, (list, tuple)):
-        prov_rank = {p: i for i, p in enumerate(live)}
+    live_list = list(scn.providers()) if live is None else list(live)
+    prov_rank = {p: i for i, p in enumerate(live_list)}   # provider order = attachment order
+    live = set(live_list)
 
     def alive(c):
         return c.provider == "-" or c.provider in live
@@ -213,15 +212,9 @@ def lst(xs):
     return ",".join(str(x) for x in xs) if xs else "-"
 
 
-def model_lines(scn: Scn, live=None, kind="engine"):
+def _machine_lines(scn: Scn, live):
     tl, sl = flatten(scn, live)
-    out = [f"scn {kind} {scn.name}"]
-    out.append(
-        f"opt rtc={int(scn.rtc)} allow={int(scn.allow)} async={int(scn.is_async())} "
-        f"start={'-' if scn.start is None else scn.start} cur={'-' if scn.cur0 is None else scn.cur0}"
-    )
-    for t in used_toks(scn):
-        out.append(f"tok {t} {int(not bool(POOL[t]))} {rp(POOL[t])}")
+    out = []
     for i, s in enumerate(scn.states):
         out.append(
             f"state val={s.val} init={int(s.initial)} final={int(s.final)} "
@@ -236,12 +229,38 @@ def model_lines(scn: Scn, live=None, kind="engine"):
             f"val={lst([c for c, _ in g['validators']])} cond={cd} before={sp(g['before'])} "
             f"on={sp(g['on'])} after={sp(g['after'])}"
         )
+    return out
+
+
+def model_lines(scn: Scn, live=None, kind="engine"):
+    out = [f"scn {kind} {scn.name}"]
+    out.append(
+        f"opt rtc={int(scn.rtc)} allow={int(scn.allow)} async={int(scn.is_async())} "
+        f"start={'-' if scn.start is None else scn.start} cur={'-' if scn.cur0 is None else scn.cur0}"
+    )
+    for t in used_toks(scn):
+        out.append(f"tok {t} {int(not bool(POOL[t]))} {rp(POOL[t])}")
+    cur_live = list(scn.providers()) if live is None else list(live)
+    out += _machine_lines(scn, cur_live)
+    # one machine variant per late attachment: the callback lists grow
+    ops_out, k = [], 0
+    for op in scn.ops:
+        if op[0] == "add_listener":
+            if op[1] not in cur_live:
+                cur_live = cur_live + [op[1]]
+            out.append("variant")
+            out += _machine_lines(scn, cur_live)
+            k += 1
+            ops_out.append(f"op swap {k}")
+        elif op[0] == "send":
+            ops_out.append(f"op send {op[1]}")
+        else:
+            ops_out.append("op " + " ".join(str(x) for x in op))
     for (cb, lo, hi, ret, rz, sends) in scn.acts:
         out.append(
             f"act cb={cb} lo={lo} hi={hi} ret={ret} raise={'-' if rz is None else rz} sends={lst(sends)}"
         )
-    for op in scn.ops:
-        out.append("op " + " ".join(str(x) for x in op))
+    out += ops_out
     out.append("end")
     return out
 
@@ -282,7 +301,12 @@ class Runtime:
 
     def ev_id(self, ev):
         s = str(ev)
-        return str(EVENTS.index(s)) if s in EVENTS else f"?{s}"
+        if s in EVENTS:
+            return str(EVENTS.index(s))
+        for k, v in self.scn.extra_events.items():
+            if v == s:
+                return str(k)
+        return f"?{s}"
 
     def fmt_res(self, r):
         return rp(r)
@@ -511,40 +535,74 @@ def run_impl(scn: Scn):
         if scn.state_field != "state":
             kw["state_field"] = scn.state_field
         cls(rt.model, rtc=scn.rtc, allow_event_without_transition=scn.allow,
-                    listeners=[listeners[p] for p in scn.listeners_ctor], **kw)
+            listeners=[listeners[p] for p in scn.listeners_ctor], **kw)
+        rt.bound = type("Bound", (), {})()
+        rt.sm.bind_events_to(rt.bound)
         return None
 
-    def op_send(e):
+    def ev_name(e):
+        if e < len(EVENTS):
+            return EVENTS[e]
+        return scn.extra_events.get(e, f"unk{e}")
+
+    def op_send(e, style="send"):
         tid = rt.next_tid
         rt.next_tid += 1
         cur_tid[0] = str(tid)
-        return rt.sm.send(EVENTS[e] if e < len(EVENTS) else f"unk{e}", _tid=tid)
-
-    def op_activate():
-        return rt.sm.activate_initial_state()
-
-    async def run_all_async():
-        for i, op in enumerate(scn.ops):
-            await step(i, op, True)
+        name = ev_name(e)
+        sm = rt.sm
+        declared = name in type(sm)._events
+        if style == "method" and declared:
+            return getattr(sm, name)(_tid=tid)
+        if style == "events" and declared:
+            return next(x for x in sm.events if x == name)(_tid=tid)
+        if style == "allowed":
+            try:
+                cands = [x for x in sm.allowed_events if x == name]
+            except Exception:
+                cands = []
+            if cands:
+                return cands[0](_tid=tid)
+        if style == "bound" and declared and hasattr(rt.bound, name):
+            return getattr(rt.bound, name)(_tid=tid)
+        return sm.send(name, _tid=tid)
 
     dead = [False]
     cur_tid = ["-"]
+
+    def do_op(i, op):
+        """returns ('R', value-or-coroutine) or ('L', line)"""
+        cur_tid[0] = "-"
+        rt.cur_op = i
+        if op[0] in ("construct", "reconstruct"):
+            return "R", op_construct()
+        if op[0] == "send":
+            return "R", op_send(op[1], op[2] if len(op) > 2 else "send")
+        if op[0] == "activate":
+            return "R", rt.sm.activate_initial_state()
+        if op[0] == "add_listener":
+            rt.sm.add_listener(listeners[op[1]])
+            return "R", None
+        if op[0] == "allowed":
+            try:
+                ids = [rt.ev_id(e) for e in rt.sm.allowed_events]
+                return "L", f"A {i} " + (",".join(ids) if ids else "-")
+            except Exception as e:
+                return "L", f"A {i} err {rt.exc_s(e)}"
+        if op[0] == "events":
+            ids = sorted(int(rt.ev_id(e)) for e in rt.sm.events)
+            return "L", f"V {i} " + ",".join(str(x) for x in ids)
+        raise ValueError(op)
 
     async def step(i, op, in_loop):
         if dead[0]:
             rt.lines.append(f"R {i} skipped")
             return
-        cur_tid[0] = "-"
-        rt.cur_op = i
         try:
-            if op[0] in ("construct", "reconstruct"):
-                r = op_construct()
-            elif op[0] == "send":
-                r = op_send(op[1])
-            elif op[0] == "activate":
-                r = op_activate()
-            else:
-                raise ValueError(op)
+            k, r = do_op(i, op)
+            if k == "L":
+                rt.lines.append(r)
+                return
             if asyncio.iscoroutine(r):
                 r = await r
             rt.lines.append(f"R {i} ok {rt.fmt_res(r)} cur={rt.seen()} tid={cur_tid[0]}")
@@ -557,22 +615,20 @@ def run_impl(scn: Scn):
         if dead[0]:
             rt.lines.append(f"R {i} skipped")
             return
-        cur_tid[0] = "-"
-        rt.cur_op = i
         try:
-            if op[0] in ("construct", "reconstruct"):
-                r = op_construct()
-            elif op[0] == "send":
-                r = op_send(op[1])
-            elif op[0] == "activate":
-                r = op_activate()
-            else:
-                raise ValueError(op)
+            k, r = do_op(i, op)
+            if k == "L":
+                rt.lines.append(r)
+                return
             rt.lines.append(f"R {i} ok {rt.fmt_res(r)} cur={rt.seen()} tid={cur_tid[0]}")
         except Exception as e:
             rt.lines.append(f"R {i} err {rt.exc_s(e)} cur={rt.seen()} tid={cur_tid[0]}")
             if op[0] in ("construct", "reconstruct"):
                 dead[0] = True
+
+    async def run_all_async():
+        for i, op in enumerate(scn.ops):
+            await step(i, op, True)
 
     with warnings.catch_warnings(record=True) as w:
         warnings.simplefilter("always")
